@@ -341,6 +341,9 @@ def run(ck: Check):
     ck.pins_changed(PINS)
     deep = (not ck.quick) or getattr(ck, "escalated", False)
     ck.run_gen("resvalues")
+    # tie by translation: AgVerif.Gen.PyResValue.complexToFloat is the statement-by-statement translation
+    # (gen/py2lean.py) of complexToFloat; Props/C27.lean proves gen_complexToFloat_eq / src_complexToFloat
+    ck.run_gen("py2lean_c27")
     ck.prove(exes=["drv_C27"])
     drv = Driver("drv_C27")
     rng = ck.rng
@@ -450,6 +453,9 @@ def run(ck: Check):
     reqs = [f"f6 {s} {n} {1 << k}" for s, n, k in f6]
     ck.compare("cpython-%f", reqs, ["%f" % math.ldexp(-n if s else n, -k) if n else ("-0.000000" if s else "0.000000")
                                     for s, n, k in f6], drv.ask(reqs))
+    ck.assumptions.append("tie by translation (complexToFloat): gen/py2lean.py reads the Python subset it documents correctly "
+                          "(int = Int, & >> as in Model/PyInt.lean); float(mantissa) * RADIX_MULTS[i] is kept symbolic "
+                          "and interpreted by the generated table")
     ck.assumptions.append("binary64 arithmetic of the fixed code is modelled by exact rationals (sound: float() of a "
                           "32-bit integer, multiplication by a power of two and by 100 are exact; theorems radix_exact, "
                           "complex_binary64); CPython '%f' is round-half-even to six places (checked by the correspondence "
